@@ -25,9 +25,9 @@ ASSUMPTIONS = ["task cancellation and 'no callback raises' are asyncio runtime f
 def scripts(env):
     cfg = msglayer.default_cfg()
     out = [c["script"] for _, c in load_corpus("C18") if "script" in c]
-    for _ in range(env.scale(280, 6000)):
+    for i in range(env.scale(280, 6000)):
         s = G.c18_random(env.rng, cfg)
-        s["second_context"] = True
+        s["second_context"] = "busy" if i % 3 == 0 else True
         out.append(s)
     for _ in range(env.scale(60, 900)):
         s = G.c18_twice(env.rng, cfg)
